@@ -27,8 +27,9 @@ def configs(tier, known):
                                 judge="c03", extra=extra, only_pre_first=True))
                 out.append(dict(kind=kind, n=5, cfg=dict(CFG, extras=False, L=3), hidden=False, d=1, persistent=P2,
                                 assertions=0, judge="c03", extra=extra, only_pre_first=True))
-    for kind, fl in (("mixin", "tree"), ("light", "loop"), ("mixin", "assert"), ("light", "assert"), ("mixin", "stopiter"), ("light", "recursion")) + (
-            (("node", "value"), ("mixin", "attr"), ("mixin", "loop"), ("light", "tree"), ("light", "key"), ("node", "assert")) if tier == "thorough" else ()):
+    for kind, fl in (("mixin", "tree"), ("light", "loop"), ("mixin", "assert"), ("light", "assert"), ("mixin", "stopiter"), ("light", "recursion"),
+                     ("mixin", "attr"), ("light", "value")) + (
+            (("node", "value"), ("light", "attr"), ("mixin", "loop"), ("light", "tree"), ("light", "key"), ("node", "assert")) if tier == "thorough" else ()):
         out.append(dict(kind=kind, n=3, cfg=dict(CFG, extras=False), hidden=False, d=1 if tier == "quick" else 2, persistent=P2,
                         assertions=0, judge="c03", extra=extra, only_pre_first=True, flavour=fl))
     # histories in which an earlier call was aborted by a hook (state surviving a failed call inside the library)
